@@ -414,6 +414,10 @@ def check(ctx):
     check_flag_readers(ctx)
     check_eval_and_states(ctx)
     check_rewire(ctx)
+    ctx.rule("R11.7", "the pure evaluation is the tensor functor whose loop invariant and flag discipline are decided by C09; bras, kets and gates are daggered as C02 R02.4 requires")
+    ctx.depend("R11.7", "C09", "eval() applies tensor.Functor layer by layer: each box is contracted on the axes of its own wires", rules={"R09.1", "R09.2"}, mod="discopy.tensor")
+    from .c02 import check_daggers
+    check_daggers(ctx, modules={GATES}, rule="R11.7", kinds=("types", "involution", "raises", "not-a-box", "flag", "involution-raises"))
     ctx.floor("R11.6", 3)
     ctx.floor("R11.1", 15)
     ctx.floor("R11.2", 7)
